@@ -158,32 +158,16 @@ Definition byte_ok (b : N) : Prop :=
   forall t, parse_string_body (esc_byte b ++ t)
             = match parse_string_body t with Some (u, r) => Some (b :: u, r) | None => None end.
 
-Lemma ascii_ok : Forall byte_ok
-  [0;1;2;3;4;5;6;7;8;9;10;11;12;13;14;15;16;17;18;19;20;21;22;23;24;25;26;27;28;29;30;31;
-   32;33;34;35;36;37;38;39;40;41;42;43;44;45;46;47;48;49;50;51;52;53;54;55;56;57;58;59;60;61;62;63;
-   64;65;66;67;68;69;70;71;72;73;74;75;76;77;78;79;80;81;82;83;84;85;86;87;88;89;90;91;92;93;94;95;
-   96;97;98;99;100;101;102;103;104;105;106;107;108;109;110;111;112;113;114;115;116;117;118;119;
-   120;121;122;123;124;125;126;127].
-Proof. repeat (constructor; [intro t; reflexivity|]). constructor. Qed.
-
-Lemma in_first_128 b : b < 128 -> In b
-  [0;1;2;3;4;5;6;7;8;9;10;11;12;13;14;15;16;17;18;19;20;21;22;23;24;25;26;27;28;29;30;31;
-   32;33;34;35;36;37;38;39;40;41;42;43;44;45;46;47;48;49;50;51;52;53;54;55;56;57;58;59;60;61;62;63;
-   64;65;66;67;68;69;70;71;72;73;74;75;76;77;78;79;80;81;82;83;84;85;86;87;88;89;90;91;92;93;94;95;
-   96;97;98;99;100;101;102;103;104;105;106;107;108;109;110;111;112;113;114;115;116;117;118;119;
-   120;121;122;123;124;125;126;127].
+Lemma byte_ok_ascii b : b < 128 -> byte_ok b.
 Proof.
-  intro H.
-  assert (E : b = N.of_nat (N.to_nat b)) by (rewrite N2Nat.id; reflexivity).
-  assert (Hn : (N.to_nat b < 128)%nat) by lia.
-  rewrite E. generalize dependent (N.to_nat b). intros n _ Hn.
-  do 128 (destruct n as [|n]; [simpl; tauto|]). lia.
+  intro H. destruct b as [|p]; [intro t; reflexivity|].
+  do 7 (try (destruct p as [p|p|])); try (exfalso; lia); intro t; reflexivity.
 Qed.
 
 Lemma byte_ok_all b : byte_ok b.
 Proof.
   destruct (N.ltb_spec b 128) as [Hlt|Hge].
-  - pose proof ascii_ok as HF. rewrite Forall_forall in HF. apply HF. apply in_first_128. exact Hlt.
+  - apply byte_ok_ascii. exact Hlt.
   - intro t. unfold esc_byte.
     assert (E : (b <? 128) = false) by (apply N.ltb_ge; exact Hge). rewrite E.
     cbn [app parse_string_body].
@@ -232,6 +216,17 @@ Proof.
   unfold json_property, property_tail. cbn [app]. repeat rewrite <- app_assoc. reflexivity.
 Qed.
 
+Lemma pm_more fuel s k v r1 r2 :
+  parse_string s = Some (k, 58 :: r1) -> parse_string r1 = Some (v, 44 :: r2) ->
+  parse_members (S fuel) s
+  = match parse_members fuel r2 with Some (ms, rest) => Some ((k, v) :: ms, rest) | None => None end.
+Proof. intros H1 H2. cbn [parse_members]. rewrite H1, H2. reflexivity. Qed.
+
+Lemma pm_last fuel s k v r1 r2 :
+  parse_string s = Some (k, 58 :: r1) -> parse_string r1 = Some (v, 125 :: r2) ->
+  parse_members (S fuel) s = Some ([(k, v)], r2).
+Proof. intros H1 H2. cbn [parse_members]. rewrite H1, H2. reflexivity. Qed.
+
 Lemma parse_members_property p rest fuel :
   property_transparent p = true -> (3 <= fuel)%nat ->
   parse_members fuel (property_tail p rest) = Some (members_of p, rest).
@@ -240,18 +235,41 @@ Proof.
   apply andb_true_iff in Ht. destruct Ht as [Ht Hs]. apply andb_true_iff in Ht. destruct Ht as [Hn Hv].
   destruct fuel as [|[|[|f]]]; try lia.
   unfold property_tail, members_of.
-  cbn [parse_members]. rewrite parse_k_name. rewrite (json_string_parse _ _ Hn).
-  change (k_value ++ ?x) with (44 :: (tl k_value ++ x)).
-  cbn [parse_members]. rewrite parse_k_value. rewrite (json_string_parse _ _ Hv).
   destruct (p_sig p) as [|x sg] eqn:Es.
-  - cbn [app]. reflexivity.
-  - change (k_sig ++ ?y) with (44 :: (tl k_sig ++ y)).
-    rewrite <- app_assoc. cbn [app].
-    cbn [parse_members]. rewrite parse_k_sig. rewrite (json_string_parse _ _ Hs). reflexivity.
+  - change (k_value ++ ?z) with (44 :: (tl k_value ++ z)).
+    rewrite (pm_more _ _ s_name (p_name p) _ _ (parse_k_name _) (json_string_parse _ _ Hn)).
+    cbn [app].
+    rewrite (pm_last _ _ s_value (p_value p) _ _ (parse_k_value _) (json_string_parse _ _ Hv)).
+    reflexivity.
+  - rewrite <- app_assoc.
+    change (k_value ++ ?z) with (44 :: (tl k_value ++ z)).
+    change (k_sig ++ ?y) with (44 :: (tl k_sig ++ y)).
+    rewrite (pm_more _ _ s_name (p_name p) _ _ (parse_k_name _) (json_string_parse _ _ Hn)).
+    rewrite (pm_more _ _ s_value (p_value p) _ _ (parse_k_value _) (json_string_parse _ _ Hv)).
+    rewrite (pm_last _ _ s_signature (x :: sg) _ _ (parse_k_sig _) (json_string_parse _ _ Hs)).
+    reflexivity.
 Qed.
 
 Lemma property_tail_len p rest : (3 <= length (property_tail p rest))%nat.
 Proof. unfold property_tail, k_name. cbn [app length]. lia. Qed.
+
+Lemma join_props_one p : json_join (map json_property [p]) = json_property p.
+Proof. reflexivity. Qed.
+
+Lemma join_props_more p ps : ps <> [] ->
+  json_join (map json_property (p :: ps)) = json_property p ++ [44] ++ json_join (map json_property ps).
+Proof. destruct ps as [|q ps']; [contradiction | reflexivity]. Qed.
+
+Lemma po_last fuel r ms p rest :
+  parse_members (length r) r = Some (ms, 93 :: rest) -> property_of ms = Some p ->
+  parse_objects (S fuel) (123 :: r) = Some ([p], rest).
+Proof. intros H1 H2. cbn [parse_objects]. rewrite H1, H2. reflexivity. Qed.
+
+Lemma po_more fuel r ms p r' :
+  parse_members (length r) r = Some (ms, 44 :: r') -> property_of ms = Some p ->
+  parse_objects (S fuel) (123 :: r)
+  = match parse_objects fuel r' with Some (ps, rest') => Some (p :: ps, rest') | None => None end.
+Proof. intros H1 H2. cbn [parse_objects]. rewrite H1, H2. reflexivity. Qed.
 
 Lemma parse_objects_join : forall ps rest fuel,
   ps <> [] -> forallb property_transparent ps = true -> (length ps <= fuel)%nat ->
@@ -261,24 +279,34 @@ Proof.
   cbn [forallb] in Ht. apply andb_true_iff in Ht. destruct Ht as [Hp Hps].
   destruct fuel as [|f]; [simpl in Hf; lia|].
   destruct ps as [|q ps'].
-  - cbn [map json_join]. rewrite json_property_tail. cbn [parse_objects].
-    rewrite (parse_members_property p (93 :: rest) _ Hp (property_tail_len p _)).
-    rewrite property_of_members. reflexivity.
-  - cbn [map json_join]. rewrite <- !app_assoc. rewrite json_property_tail. cbn [parse_objects].
-    rewrite (parse_members_property p _ _ Hp (property_tail_len p _)).
-    rewrite property_of_members. cbn [app].
-    change (json_property q :: map json_property ps') with (map json_property (q :: ps')).
+  - rewrite join_props_one. rewrite json_property_tail.
+    rewrite (po_last _ _ _ _ _ (parse_members_property p (93 :: rest) _ Hp (property_tail_len p _))
+               (property_of_members p)).
+    reflexivity.
+  - rewrite join_props_more by discriminate. rewrite <- !app_assoc. rewrite json_property_tail.
+    cbn [app].
+    rewrite (po_more _ _ _ _ _ (parse_members_property p _ _ Hp (property_tail_len p _))
+               (property_of_members p)).
     rewrite (IH rest f); [reflexivity | discriminate | exact Hps | simpl in *; lia].
 Qed.
+
+Lemma json_property_len p : (1 <= length (json_property p))%nat.
+Proof. unfold json_property. cbn [app length]. lia. Qed.
 
 Lemma json_join_len ps : (length ps <= length (json_join (map json_property ps)))%nat.
 Proof.
   induction ps as [|p ps IH]; [simpl; lia|].
-  cbn [map json_join]. destruct ps as [|q ps'].
-  - unfold json_property. cbn [app length]. lia.
-  - rewrite !app_length. unfold json_property at 1. cbn [app length].
-    change (json_property q :: map json_property ps') with (map json_property (q :: ps')).
-    simpl length in *. lia.
+  destruct ps as [|q ps'].
+  - rewrite join_props_one. pose proof (json_property_len p). simpl length. lia.
+  - rewrite join_props_more by discriminate. rewrite !app_length.
+    pose proof (json_property_len p). simpl length in *. lia.
+Qed.
+
+Lemma join_props_head p ps : exists x, json_join (map json_property (p :: ps)) = 123 :: x.
+Proof.
+  destruct ps as [|q ps'].
+  - rewrite join_props_one. unfold json_property. cbn [app]. eexists; reflexivity.
+  - rewrite join_props_more by discriminate. unfold json_property at 1. cbn [app]. eexists; reflexivity.
 Qed.
 
 Theorem parse_props_array ps :
@@ -287,9 +315,7 @@ Proof.
   intro Ht. unfold json_array. destruct ps as [|p ps]; [reflexivity|].
   cbn [app]. set (body := json_join (map json_property (p :: ps)) ++ [93]).
   assert (Hb : exists x, body = 123 :: x).
-  { unfold body. cbn [map json_join]. destruct ps as [|q ps'].
-    - unfold json_property. cbn [app]. eexists; reflexivity.
-    - unfold json_property at 1. cbn [app]. eexists; reflexivity. }
+  { unfold body. destruct (join_props_head p ps) as [x ->]. eexists; reflexivity. }
   destruct Hb as [x Hx]. unfold parse_props. rewrite Hx. rewrite <- Hx.
   unfold body. rewrite (parse_objects_join (p :: ps) [] _); [reflexivity | discriminate | exact Ht |].
   rewrite app_length. pose proof (json_join_len (p :: ps)). lia.
